@@ -29,7 +29,9 @@ RULE = ("sequences: Hypothesis draws a type (aa/dna/rna), up to 4 blocks (motif 
         "independent code->bases map (B=DN J=LI Z=EQ X=20 aa; R=AG Y=CT K=GT M=AC S=CG W=AT B=CGT D=AGT H=ACT V=ACG N=ACGT U=T, "
         "X and - empty) with equal weights and sum the base residues' atoms, cell volume and charge in Fractions; mass/Dmass "
         "from atom masses with H[1]->H / D; density = mass/(N_A*V)*1e24 for the natural and the labile formula. Checked on "
-        "Sequence(raw), Sequence(permuted) and formula('<type>:raw'). codes: exhaustive sweep of the 25+18+18 table entries "
+        "Sequence(raw), Sequence(permuted) and formula('<type>:raw'); the prefix route is asked twice (distinct objects), the first "
+        "answer is then changed in place (+= formula('H[1]2O'), .density, .name, change_table(private)) and the string asked "
+        "again: a new object that satisfies the whole oracle; the same with table=<private table> for chains <= 300. codes: exhaustive sweep of the 25+18+18 table entries "
         "against the equal-weight mean of their bases. fasta: texts rendered from 0..8 records (header, 0..5 sequence lines "
         "with trailing/internal blanks, blank lines, junk before the first header, LF/CRLF, with/without final newline) "
         "written under a mkdtemp directory with each extension of {.fna .ffn .faa .frn .fasta .txt none .fna.txt .faa.gz} and "
@@ -262,17 +264,93 @@ def check_sequence(ctx, case, S=None):
         bad = cmp_atoms(p.labile_formula.atoms, dict((a, Fraction(n)) for a, n in s.labile_formula.atoms.items()))
         if bad or not close(p.cell_volume, s.cell_volume) or not close(p.mass, s.mass):
             raise Violation("c18:permutation:differs", "%s and its permutation %r differ: %s" % (label, perm[:60], bad), case)
-    # the formula prefix
-    f = pt.formula(typ + ":" + raw)
-    not_table_object(E, f, typ, "formula(%r)" % (typ + ":" + short), case)
-    bad = cmp_atoms(f.atoms, atoms)
-    if bad:
-        raise Violation("c18:prefix:formula", "formula(%r): %s" % (typ + ":" + short, bad), case)
-    if V > 0:
-        want = lab / E["NA"] / float(V) * 1e24
-        if f.density is None or not close(f.density, want):
-            raise Violation("c18:prefix:density", "formula(%r).density is %r, expected %r" % (typ + ":" + short, f.density, want), case)
+    check_prefix(ctx, E, case, typ, raw, short, atoms, V, lab)
     return first
+
+
+def private_table(E):
+    if "private" not in E:
+        from periodictable import core, mass, density
+        T = core.PeriodicTable("c18-private")
+        mass.init(T)
+        density.init(T)
+        E["private"] = T
+    return E["private"]
+
+
+def on_table(T, atom):
+    out = T[atom.number]
+    iso = getattr(atom, "isotope", 0)
+    if iso:
+        out = out[iso]
+    if atom.charge:
+        out = out.ion[atom.charge]
+    return out
+
+
+def check_prefix(ctx, E, case, typ, raw, short, atoms, V, lab):
+    """formula('<type>:codes'): the residue sum, every time it is asked, whatever the caller did to earlier answers."""
+    pt = E["pt"]
+    text = typ + ":" + raw
+    shown = typ + ":" + short
+    want_density = lab / E["NA"] / float(V) * 1e24 if V > 0 else None
+
+    def judge(f, bucket, what, want_atoms=atoms):
+        bad = cmp_atoms(f.atoms, want_atoms)
+        if bad:
+            raise Violation(bucket + ":formula", "%s: %s" % (what, bad), case)
+        if want_density is not None and (f.density is None or not close(f.density, want_density)):
+            raise Violation(bucket + ":density", "%s.density is %r, expected mass/cell volume = %r" % (what, f.density, want_density), case)
+
+    f = pt.formula(text)
+    not_table_object(E, f, typ, "formula(%r)" % shown, case)
+    judge(f, "c18:prefix", "formula(%r)" % shown)
+    fresh_name = f.name
+    # asked twice: two answers, not one object
+    g = pt.formula(text)
+    if g is f:
+        raise Violation("c18:prefix:same-object", "formula(%r) returned the same Formula object twice; a caller who extends one "
+                        "answer (f += ...) changes the other" % shown, case)
+    judge(g, "c18:prefix:repeat", "second formula(%r)" % shown)
+    # the caller modifies the first answer in place with documented operations ...
+    mode = len(raw) % 3
+    ops = []
+    if mode in (0, 2):
+        f += pt.formula("H[1]2O")           # chain terminations, as the fasta module suggests
+        ops.append("f += formula('H[1]2O')")
+    if mode in (0, 1):
+        f.density = 1.35
+        ops.append("f.density = 1.35")
+    if mode == 1:
+        f.name = "modified"
+        ops.append("f.name = 'modified'")
+    if mode == 2:
+        f.change_table(private_table(E))
+        ops.append("f.change_table(private)")
+    ctx.count("prefix:modified:" + ["extend+density", "density+name", "extend+change_table"][mode])
+    # ... and asks again
+    h = pt.formula(text)
+    if h is f or h is g:
+        raise Violation("c18:prefix:same-object", "formula(%r) returned an object it had returned before" % shown, case)
+    what = "formula(%r) after an earlier answer was changed by %s" % (shown, "; ".join(ops))
+    judge(h, "c18:prefix:after-modification", what)
+    judge(g, "c18:prefix:after-modification", "the second answer of " + what)
+    if h.name != fresh_name:
+        raise Violation("c18:prefix:after-modification:name", "%s is named %r, a fresh one %r" % (what, h.name, fresh_name), case)
+    # the same on a private table (short chains, every other case)
+    if len(raw) <= 300 and len(raw) % 2 == 0:
+        T = private_table(E)
+        patoms = dict((on_table(T, a), n) for a, n in atoms.items())
+        ctx.count("prefix:private-table")
+        p1 = pt.formula(text, table=T)
+        judge(p1, "c18:prefix:private-table", "formula(%r, table=private)" % shown, patoms)
+        p1 += pt.formula("H[1]2O", table=T)
+        p1.density = 2.5
+        p2 = pt.formula(text, table=T)
+        if p2 is p1:
+            raise Violation("c18:prefix:same-object", "formula(%r, table=private) returned the same object twice" % shown, case)
+        judge(p2, "c18:prefix:after-modification", "formula(%r, table=private) after p += formula('H[1]2O'); p.density = 2.5" % shown, patoms)
+        judge(pt.formula(text), "c18:prefix:after-modification", "formula(%r) after the private-table requests" % shown)
 
 
 def not_table_object(E, obj, typ, label, case):
